@@ -1,5 +1,47 @@
-from vp import Obl
-from obl.dbimpl_recover import recover_log_obls, recover_obls, array_sort_obls
+"""C03 A process crash loses nothing that was acknowledged.
 
-OBLIGATIONS = recover_obls("b") + array_sort_obls("b") + recover_log_obls("c")
-META = {"level": "model_checking"}
+Decomposition (DESIGN 6, C03):
+  w  acknowledged => the record was appended to the current log before success is returned (real ldb_write)
+  b  real ldb_recover: exactly the logs {n >= log_number or n == prev_log_number} are replayed, ascending,
+     each marked as used; last_sequence raised; missing table => CORRUPTION; nothing destroyed
+     (+ the real quicksort of util/array.c that orders the logs)
+  c  real ldb_recover_log_file: every record replayed once, in order; memtable written out or kept; reuse path
+  d  real ldb_open: new log number after recovery, edit names the current log and carries the recovered tables,
+     applied before anything is removed
+  e  real file-number allocator (version_set.c)
+"""
+from vp import Obl
+from obl.dbimpl_common import write_obls
+from obl.dbimpl_recover import recover_obls, recover_log_obls, open_obls, array_sort_obls, filenum_obls
+
+OBLIGATIONS = (write_obls("w", quick=((0, 0, 0, -1), (0, 1, 0, -1)), thorough=())
+               + recover_obls("b")
+               + array_sort_obls("b")
+               + recover_log_obls("c")
+               + open_obls("d", quick=((1, 1, 1, 2),), thorough=((2, 1, 1, 2),))
+               + filenum_obls("e"))
+
+META = {
+    "level": "model_checking",
+    "level_text": "Bounded model checking (CBMC) of the real recovery path of src/db_impl.c (#included, so the static functions run unchanged): ldb_recover, ldb_new_db, ldb_recover_log_file, ldb_write_level0_table, ldb_open, ldb_remove_obsolete_files, ldb_destroy_internal, plus ldb_write for the acknowledge side, the real quicksort of util/array.c and the real file-number allocator of version_set.c. Inputs are symbolic: the directory listing (file types and numbers), the counters recovered from the MANIFEST, the version's table set, the records of each log (sizes, sequences, counts, reported corruptions), the options, and the status of every env call. Asserted: success of a write implies its record was appended to the current log; reopening replays exactly the logs numbered >= log_number or == prev_log_number, each once, in ascending order, every record of >= 12 bytes once and in file order into a memtable that is written to a level-0 table recorded in the edit or kept as the live memtable; last_sequence and the file-number counter end above everything replayed; the edit that retires the old logs names the log that really is current and is applied before any file is removed.",
+    "level_note": "Trusted: CBMC's semantics of the goto-cc translation; the stubs below db_impl.c listed under models (in particular the log reader as a record source: framing, checksums and torn tails are decided by C15; the write-batch codec by C04.b; ldb_versions_recover / ldb_versions_apply by their contracts, decided by C17; the real filename.c by C17/C18); the prose composition of the per-unit obligations into the whole-history statement (acknowledged => in the log; log => replayed in order; replayed => in a table of the applied edit or in the live memtable). The byte image of the directory at each kill point is not materialised: 'crash at any instant' is covered through the invariants each unit keeps at every env call, not by enumerating kill points. No thread interleaving is executed (recovery is single-threaded; ldb_write uses the rely/guarantee model of C04).",
+    "bounds": ["ldb_recover: directory of <=3 (quick) / <=5 (thorough) arbitrary distinct names of any file type incl. foreign names, 62-bit file numbers (16-bit for 4 and 5 names), <=2 tables in the recovered version, <=1 (quick) / <=2 (thorough) records per log",
+               "ldb_recover_log_file: <=2 (quick) / <=3 (thorough) records per log with symbolic sizes (all size_t values), sequences 1..2^56, counts 0..10^6, a corruption report possible before every record and before EOF, symbolic write_buffer_size / memtable usage, paranoid_checks and reuse_logs both ways",
+               "ldb_open: directory of <=2 names at recovery and <=2 (quick) / 3 (thorough) at garbage collection; every env call may fail with IOERR/CORRUPTION/ENOSPC/EMFILE/ENOENT",
+               "util/array.c quicksort: 0..3 (quick) / 4 (thorough) arbitrary 64-bit numbers",
+               "ldb_write: <=1 other writer, symbolic batch sizes and counts (see C04)"],
+    "outside": ["more than 5 directory entries / more than 3 records per log (the replay loop is size-independent but not proved so)",
+                "the contents of records and tables (abstract batches: sequence + count; C04.b/C15/C16 decide the codecs)",
+                "byte-exact crash images and kill points inside ldb_versions_apply / ldb_set_current_file (C02/C05.b/C17)",
+                "a log that cannot be OPENED during recovery (env fault, paranoid_checks off) is skipped by ldb_maybe_ignore_error and later deleted: outside C03's hypothesis (no I/O fault) and reported as candidate finding F3 for C12; the path is witnessed, and strict_logopen=True variants of the obligations assert it",
+                "a non-table file that carries the number of a table the version expects hides the missing table from ldb_recover's check (same in LevelDB); excluded by the one-counter file-number discipline (C03.e)"],
+    "models": ["harness/dbimpl/world.h ghost mutex/condvar (ldb_mutex_assert_held re-enabled)",
+               "harness/dbimpl/recover_world.h: encoded file names + stubbed filename.c API; symbolic directory listings; ldb_versions_recover/add_files/apply/new_file_number/mark_file_number by contract; log reader as a record source with corruption reports; abstract batches; single-object memtable/file/writer models with lifetime monitors; small abstract rb_set64; every env call with a symbolic status; static db object instead of the heap",
+               "ldb_array_sort inside dbimpl/recover.c: compare-exchange network over the caller's comparison (the real compare_ascending); the real quicksort is decided separately by dbimpl/array_sort.c",
+               "vp_mem.c byte loops; vp_nondet.c inputs"],
+    "assumptions": ["directory entries are pairwise distinct names; file numbers < 2^62; recovered next_file_number exceeds log_number, prev_log_number and every table number (contract of ldb_versions_recover)",
+                    "log records written by ldb_write carry sequence >= 1 (< 2^56) and count <= 10^6",
+                    "between the two directory listings of ldb_open only this process creates files (LOCK held)",
+                    "file-name construction cannot fail after ldb_path_absolute bounded the path length"],
+    "design_ref": "DESIGN.md section 6 C03 (b, c, d, e; a is C15.b)",
+}
